@@ -112,6 +112,11 @@ def write_nifti_image(data: Tensor, grid: Grid, path: PathUri) -> None:
         raise ValueError("write_image() data.ndim must be equal to grid.ndim or grid.ndim + 1")
     # Reverse order of axes
     dataobj = np.transpose(data.numpy(), axes=tuple(reversed(range(data.ndim))))
+    if dataobj.shape[-1] == 1:
+        dataobj = dataobj[..., 0]
+    else:
+        # Vector components are stored along the 5th dimension of a NIfTI image
+        dataobj = dataobj.reshape(dataobj.shape[:-1] + (1,) * (4 - grid.ndim) + dataobj.shape[-1:])
     # Convert to NIfTI RAS convention
     affine = np.eye(4)
     affine[: grid.ndim, : grid.ndim] = grid.affine().cpu().numpy()
@@ -119,5 +124,8 @@ def write_nifti_image(data: Tensor, grid: Grid, path: PathUri) -> None:
     affine[:2] *= -1
     with StorageObject.from_path(path) as obj:
         local_path = unlink_or_mkdir(obj.path)
-        nib.save(nib.Nifti1Image(dataobj, affine), str(local_path))
+        image = nib.Nifti1Image(dataobj, affine)
+        if dataobj.ndim == 5:
+            image.header.set_intent("vector")
+        nib.save(image, str(local_path))
         obj.push(force=True)
